@@ -22,6 +22,8 @@ pub struct PropSpec {
     pub assumptions: &'static [&'static str],
     pub real: &'static [&'static str],
     pub stub: &'static [&'static str],
+    /// seeds executed per child process (1 for engines whose runs depend on process-level state such as HashMap seeds)
+    pub batch: usize,
 }
 
 pub fn verif_root() -> PathBuf {
@@ -72,20 +74,26 @@ enum Job {
     Seed(u64),
     /// seed run on a named engine (checks served by several engines)
     SeedOn(String, u64),
+    /// `count` consecutive seeds in one child process
+    Batch(u64, usize),
     TraceFile(PathBuf, String),
 }
 
-fn parse_child_output(out: &str) -> (Option<RunReport>, Option<Trace>) {
-    let mut rep = None;
-    let mut tr = None;
+fn parse_child_output_all(out: &str) -> Vec<(Option<RunReport>, Option<Trace>)> {
+    let mut all = vec![];
+    let mut tr: Option<Trace> = None;
     for l in out.lines() {
-        if let Some(j) = l.strip_prefix("REPORT ") {
-            rep = serde_json::from_str(j).ok();
-        } else if let Some(j) = l.strip_prefix("TRACE ") {
+        if let Some(j) = l.strip_prefix("TRACE ") {
             tr = serde_json::from_str(j).ok();
+        } else if let Some(j) = l.strip_prefix("REPORT ") {
+            let rep: Option<RunReport> = serde_json::from_str(j).ok();
+            all.push((rep, tr.take()));
         }
     }
-    (rep, tr)
+    all
+}
+fn parse_child_output(out: &str) -> (Option<RunReport>, Option<Trace>) {
+    parse_child_output_all(out).pop().unwrap_or((None, None))
 }
 
 struct Running {
@@ -94,7 +102,7 @@ struct Running {
     started: Instant,
 }
 
-fn finish_child(r: Running, timed_out: bool) -> JobResult {
+fn finish_child(r: Running, timed_out: bool) -> Vec<JobResult> {
     let Running { mut child, label, .. } = r;
     if timed_out {
         let _ = child.kill();
@@ -108,15 +116,23 @@ fn finish_child(r: Running, timed_out: bool) -> JobResult {
         let _ = e.read_to_string(&mut err);
     }
     let status = child.wait().ok();
-    let (report, trace) = parse_child_output(&out);
     let tail: Vec<&str> = err.lines().rev().take(8).collect();
-    JobResult {
-        label,
-        report,
-        trace,
-        stderr_tail: tail.into_iter().rev().collect::<Vec<_>>().join("\n"),
-        exit: if timed_out { None } else { status.and_then(|s| s.code()) },
+    let stderr_tail = tail.into_iter().rev().collect::<Vec<_>>().join("\n");
+    let exit = if timed_out { None } else { status.and_then(|s| s.code()) };
+    let all = parse_child_output_all(&out);
+    if all.is_empty() {
+        return vec![JobResult { label, report: None, trace: None, stderr_tail, exit }];
     }
+    let many = all.len() > 1;
+    all.into_iter()
+        .map(|(report, trace)| JobResult {
+            label: if many { format!("seed {}", report.as_ref().map(|r| r.seed).unwrap_or(0)) } else { label.clone() },
+            report,
+            trace,
+            stderr_tail: stderr_tail.clone(),
+            exit,
+        })
+        .collect()
 }
 
 /// run jobs on `workers` child processes; stops launching when `deadline` passes
@@ -163,6 +179,14 @@ fn run_pool(
                     let child = child_cmd(&args, hash_seed_for(s)).spawn().expect("spawn child");
                     running.push(Running { child, label: format!("seed {s} ({eng})"), started: Instant::now() });
                 }
+                Some(Job::Batch(first, count)) => {
+                    let mut args = vec!["many".to_string(), engine.to_string(), prop.to_string(), first.to_string(), count.to_string()];
+                    if thorough {
+                        args.push("--thorough".into());
+                    }
+                    let child = child_cmd(&args, hash_seed_for(first)).spawn().expect("spawn child");
+                    running.push(Running { child, label: format!("batch {first}+{count}"), started: Instant::now() });
+                }
                 Some(Job::TraceFile(p, label)) => {
                     let hs = std::fs::read_to_string(&p)
                         .ok()
@@ -188,7 +212,7 @@ fn run_pool(
             let timed_out = running[i].started.elapsed() > child_timeout;
             if done || timed_out {
                 let r = running.swap_remove(i);
-                results.push(finish_child(r, timed_out && !done));
+                results.extend(finish_child(r, timed_out && !done));
                 progressed = true;
             } else {
                 i += 1;
@@ -357,7 +381,17 @@ pub fn check(spec: &PropSpec, thorough: bool, base_seed: u64, max_runs: Option<u
     }
     let first_seed = base_seed.wrapping_mul(1_000_003);
     let cap = max_runs.unwrap_or(if thorough { 2_000_000 } else { 200_000 });
+    if spec.batch > 1 && engines.len() == 1 {
+        let mut i = 0u64;
+        while i < cap as u64 {
+            jobs.push(Job::Batch(first_seed.wrapping_add(i), spec.batch));
+            i += spec.batch as u64;
+        }
+    }
     for i in 0..cap as u64 {
+        if spec.batch > 1 && engines.len() == 1 {
+            break;
+        }
         if engines.len() > 1 {
             jobs.push(Job::SeedOn(engines[(i as usize) % engines.len()].to_string(), first_seed.wrapping_add(i)));
         } else {
@@ -391,7 +425,7 @@ pub fn check(spec: &PropSpec, thorough: bool, base_seed: u64, max_runs: Option<u
         match &r.report {
             Some(rep) => {
                 evaluations += 1;
-                if r.label.starts_with("seed") {
+                if r.label.starts_with("seed") || r.label.starts_with("batch") {
                     seeds_run += 1;
                 }
                 if rep.nontrivial {
